@@ -148,6 +148,55 @@ MonQuiesce(M) ==
     THEN Fail(M, "the connection's answer never reached the protocol")
   ELSE M
 
+-----------------------------------------------------------------------------
+(* Real-network executions (two litep2p nodes over loopback TCP, public API only): the      *)
+(* observer is one node; connection-side steps are invisible, so an answer can only be       *)
+(* matched against the request (not against what the connection reported) and a request is   *)
+(* excused when the protocol saw the peer closed after it, or when the driver was about to    *)
+(* terminate a connection of that peer (`nterm`).                                            *)
+Excuse(M, Which(_, _)) ==
+  [M EXCEPT !.req = [i \in DOMAIN @ |-> IF @[i].st = "open" /\ Which(i, @[i]) THEN [@[i] EXCEPT !.st = "lost"] ELSE @[i]]]
+
+NetYield(M, q, e) ==
+  CASE e.k = "est" ->
+         IF Connected(M, q, e.p) THEN Fail(M, "established reported twice without closed")
+         ELSE [M EXCEPT !.conn = @ \cup {<<q, e.p>>}]
+    [] e.k = "closed" ->
+         IF ~Connected(M, q, e.p) THEN Fail(M, "closed reported without established")
+         ELSE Excuse([M EXCEPT !.conn = @ \ {<<q, e.p>>}], LAMBDA i, x : x.q = q /\ x.p = e.p)
+    [] e.k = "opened" /\ e.dirn = "in" ->
+         IF ~Connected(M, q, e.p) THEN Fail(M, "substream event for a peer that is not connected") ELSE M
+    [] e.k \in {"opened", "failed"} ->
+         IF e.id \notin DOMAIN M.req THEN Fail(M, "answer for an identifier that was never returned")
+         ELSE LET x == M.req[e.id] IN
+              IF x.q # q THEN Fail(M, "answer delivered to another protocol")
+              ELSE IF x.st \in {"opened", "failed"} THEN Fail(M, "open request answered twice")
+              ELSE IF e.k = "opened" /\ e.p # x.p THEN Fail(M, "opened substream names another peer")
+              ELSE LET M1 == [M EXCEPT !.req[e.id].st = e.k] IN
+                   IF ~Connected(M, q, x.p) THEN Fail(M1, "substream event for a peer that is not connected") ELSE M1
+    [] e.k = "terminated" -> Fail(M, "service event stream ended")
+    [] OTHER -> M
+
+NetStep(M, s, r, panic) ==
+  IF M.off THEN M
+  ELSE IF panic THEN Fail(M, "panic")
+  ELSE
+  CASE s.a = "nev" -> NetYield(M, s.q, r)
+    [] s.a = "nopen" ->
+         IF r.k # "ok" THEN M
+         ELSE IF r.id \in M.ids THEN Fail(M, "substream identifier reused")
+         ELSE [M EXCEPT !.ids = @ \cup {r.id},
+                        !.req = (r.id :> [q |-> s.q, p |-> s.p, st |-> "open", rep |-> "none", at |-> 0]) @@ @]
+    [] s.a = "nterm" -> Excuse(M, LAMBDA i, x : x.p = s.p)
+    [] OTHER -> M
+
+\* the driver waited (several times the substream open timeout) and terminated nothing meanwhile
+NetQuiesce(M) ==
+  IF M.off THEN M
+  ELSE IF \E i \in DOMAIN M.req : M.req[i].st = "open"
+    THEN Fail(M, "accepted open request never answered although its connection is alive")
+  ELSE M
+
 \* trace validation keeps going after a broken rule: it is reported once per execution
 Forgive(M) == IF M.bad = "" THEN M ELSE [M EXCEPT !.bad = "", !.off = TRUE]
 =============================================================================
